@@ -46,6 +46,7 @@ def validate(E, seed, tier):
 
 
 META = {
+    "glue": ['groupby_lib/groupby/numba.py::find_first_n', 'groupby_lib/groupby/numba.py::find_last_n'],
     "bounds": {"quick": {"N": 4, "G": 2, "n_nth": "-5..5", "n_head_tail": "0..5", "inductive": "row index and counts < 2^40, G=2"},
                "thorough": {"N": 7, "G": 3, "n_nth": "-8..8", "n_head_tail": "0..8", "inductive": "row index and counts < 2^40, G=3"}},
     "enumerated": ["n", "mask present or not"],
